@@ -19,7 +19,7 @@ var (
 	poolSyms   = []string{"sa", "sb", "sc", "sd"}
 	poolSinks  = []string{"ka", "kb"}
 	poolLabels = []string{"la", "lb", "lc", "to_next", "to_prev"}
-	poolSels   = []string{"0", "1", "2", "00", "a", "9"}
+	poolSels   = []string{"0", "1", "2", "00", "a", "9", "A"}
 	poolWords  = []string{"alpha", "bravo", "charlie", "delta", "echo", "foxtrot", "golf", "hotel", "x", "yy", "zzz", "blåbær", "日本"}
 )
 
@@ -473,7 +473,7 @@ func (g *appGen) genPost(node string, loaded map[string]bool, hasSink, browse bo
 	for i := 0; i < n; i++ {
 		sel := pickS(t, poolSels, "incmpsel")
 		if g.o.FewSelectors {
-			sel = poolSels[g.draw(3, "incmpselfew")]
+			sel = []string{"0", "a", "A"}[g.draw(3, "incmpselfew")]
 		}
 		if g.chance(12, "wild") {
 			sel = "*"
@@ -832,6 +832,19 @@ func inputAccepted(in string) bool {
 var junkInputs = []string{"x", "zz", "99", "+1", "1 2", "0000", "hello world", "7*", "11", "22", "0x", "1\x00", "9\xff",
 	"50%", "a%20b", "5%d", "1%s", "9%!", "1%v%v", "a{{.x}}", "0{{", "1\t2", "a\"b", "a'b", "a\\n", "1$", "2^", "0|1", "a(b", "1[0", "x.y", "0?"}
 
+func swapCase(s string) string {
+	b := []byte(s)
+	for i, c := range b {
+		switch {
+		case c >= 'a' && c <= 'z':
+			b[i] = c - 32
+		case c >= 'A' && c <= 'Z':
+			b[i] = c + 32
+		}
+	}
+	return string(b)
+}
+
 // genJunkInput: an acceptable input (leading letter or digit, no line break) over an
 // alphabet of characters that mean something to formatters, templates and patterns.
 var genJunkInput = rapid.Custom(func(t *rapid.T) string {
@@ -872,6 +885,13 @@ func GenHistory(t *rapid.T, a *app.App, o HistOpts) []string {
 		case k < 15:
 			return ""
 		case k < 18 && o.Junk:
+			if chancePct(t, 15, "swapcase") {
+				// a selector of the application in the other case
+				sel := rapid.SampledFrom(sels).Draw(t, "swapsel")
+				if sw := swapCase(sel); sw != sel {
+					return sw
+				}
+			}
 			if chancePct(t, 30, "genjunk") {
 				return genJunkInput.Draw(t, "genjunk")
 			}
